@@ -8,18 +8,18 @@
   The request side is `Builders.attrName` / `Builders.macroName` (what the builder writes; C14
   proves these are the RFC 3501 names); the reply side is the printer relation `RT.EncAttr`.
 
-  Proved here:
-    * `keyword_table_agrees`: for every attribute, the keyword the builder sends is the keyword under
-      which the parser's alternative for the answering value is selected (request table = response
-      table, all 11 attributes incl. BODY);
-    * `item_readable_partial`: every conformant reply item for the 10 attributes other than BODY
-      parses to exactly the value sent;
-    * `reply_readable_partial`: a complete `* n FETCH (...)` reply with one item per requested
-      attribute parses, returning the items in order;
-    * `macro_expansion_covered`: the macros expand (RFC 3501 6.4.5) to attributes of the table.
-  Missing: the item theorem for BODY (the non-extensible body structure); the alternative exists in
-  the grammar (`msgAttBody`, added by fix F10) and is exercised by the correspondence run with
-  generated body structures, but the round-trip theorem for body structures is not proved yet.
+  Proved here (no part of the statement is left to the correspondence run):
+    * `keyword_table_agrees` / `answer_keyword`: for every attribute, the keyword the builder sends is
+      the keyword under which the parser's alternative for the answer is selected, and every
+      conformant answer begins with it;
+    * `item_readable`: every conformant reply item, for each of the 11 attributes (BODY included: the
+      non-extensible body structure of any shape within the nesting budget), parses to exactly the
+      value sent;
+    * `reply_readable`: a complete `* n FETCH (...)` reply with one item per requested attribute
+      parses, returning one value per item in order;
+    * `macro_expansion_covered`: ALL, FAST and FULL expand (RFC 3501 6.4.5) to attributes of the table.
+  Restriction inherited from the code (fix F3): a body structure nested deeper than MAX_NESTING = 32
+  is refused by design; `EncBody 33` is the set of structures within that budget.
 -/
 import ImapVerif.Proofs.RTResp
 import ImapVerif.Builders
@@ -30,19 +30,47 @@ namespace C16
 
 open Builders (Attribute AttrMacro attrName macroName)
 
-/-- the value kind that answers a requested attribute (RFC 3501 7.4.2, RFC 7162, Gmail ext.) -/
-inductive Answers : Attribute → AttributeValue → Prop
-  | body (b : BodyStructure) : Answers .body (.bodyStructure b)
-  | envelope (v : Envelope) : Answers .envelope (.envelope v)
-  | flags (vs : List Bytes) : Answers .flags (.flags vs)
-  | internalDate (s : Bytes) : Answers .internalDate (.internalDate s)
-  | modSeq (n : Nat) : Answers .modSeq (.modSeq n)
-  | rfc822 (v : Option Bytes) : Answers .rfc822 (.rfc822 v)
-  | rfc822Size (n : Nat) : Answers .rfc822Size (.rfc822Size n)
-  | rfc822Text (v : Option Bytes) : Answers .rfc822Text (.rfc822Text v)
-  | uid (n : Nat) : Answers .uid (.uid n)
-  | gmailLabels (vs : List Bytes) : Answers .gmailLabels (.gmailLabels vs)
-  | gmailMsgId (n : Nat) : Answers .gmailMsgId (.gmailMsgId n)
+/-- `Reply a v e`: `e` is a conformant reply item (RFC 3501 7.4.2, RFC 7162, Gmail ext.) answering
+    the requested attribute `a`, carrying the value `v`.  `BODY` is answered in the non-extensible
+    form `BODY (...)`. -/
+inductive Reply : Attribute → AttributeValue → Bytes → Prop
+  | body (m : List Bool) (b : BodyStructure) (e : Bytes) : EncBody 33 b e →
+      Reply .body (.bodyStructure b) (spell (b!"BODY ") m ++ e)
+  | envelope (m : List Bool) (v : Envelope) (e : Bytes) : EncEnvelope v e →
+      Reply .envelope (.envelope v) (spell (b!"ENVELOPE ") m ++ e)
+  | flags (m : List Bool) (vs : List Bytes) (e : Bytes) : EncList EncFlagPerm vs e →
+      Reply .flags (.flags vs) (spell (b!"FLAGS ") m ++ e)
+  | internalDate (m : List Bool) (s e : Bytes) : EncString s e → validUtf8 s = true →
+      Reply .internalDate (.internalDate s) (spell (b!"INTERNALDATE ") m ++ e)
+  | modSeq (m : List Bool) (n : Nat) (e : Bytes) : n < 2 ^ 64 → EncNumber n e →
+      Reply .modSeq (.modSeq n) (spell (b!"MODSEQ ") m ++ ([40] ++ e ++ [41]))
+  | rfc822 (m : List Bool) (v : Option Bytes) (e : Bytes) : EncNString v e →
+      Reply .rfc822 (.rfc822 v) (spell (b!"RFC822 ") m ++ e)
+  | rfc822Size (m : List Bool) (n : Nat) (e : Bytes) : n < 2 ^ 32 → EncNumber n e →
+      Reply .rfc822Size (.rfc822Size n) (spell (b!"RFC822.SIZE ") m ++ e)
+  | rfc822Text (m : List Bool) (v : Option Bytes) (e : Bytes) : EncNString v e →
+      Reply .rfc822Text (.rfc822Text v) (spell (b!"RFC822.TEXT ") m ++ e)
+  | uid (m : List Bool) (n : Nat) (e : Bytes) : n < 2 ^ 32 → EncNumber n e →
+      Reply .uid (.uid n) (spell (b!"UID ") m ++ e)
+  | gmailLabels (m : List Bool) (vs : List Bytes) (e : Bytes) : EncList EncLabel vs e →
+      Reply .gmailLabels (.gmailLabels vs) (spell (b!"X-GM-LABELS ") m ++ e)
+  | gmailMsgId (m : List Bool) (n : Nat) (e : Bytes) : n < 2 ^ 64 → EncNumber n e →
+      Reply .gmailMsgId (.gmailMsgId n) (spell (b!"X-GM-MSGID ") m ++ e)
+
+/-- a reply item is one of the encodings of its value -/
+theorem Reply.enc {a : Attribute} {v : AttributeValue} {e : Bytes} (h : Reply a v e) : EncAttr v e := by
+  cases h with
+  | body m b e h => exact .body m b e h
+  | envelope m v e h => exact .envelope m v e h
+  | flags m vs e h => exact .flags m vs e h
+  | internalDate m s e h hu => exact .internalDate m s e h hu
+  | modSeq m n e hn h => exact .modSeq m n e hn h
+  | rfc822 m v e h => exact .rfc822 m v e h
+  | rfc822Size m n e hn h => exact .rfc822Size m n e hn h
+  | rfc822Text m v e h => exact .rfc822Text m v e h
+  | uid m n e hn h => exact .uid m n e hn h
+  | gmailLabels m vs e h => exact .gmailLabels m vs e h
+  | gmailMsgId m n e hn h => exact .gmailMsgId m n e hn h
 
 /-- the alternative of `msg_att` that reads the answer to `a` -/
 def reader : Attribute → Parser AttributeValue
@@ -76,36 +104,38 @@ theorem keyword_table_agrees (a : Attribute) (mask : List Bool) (u : Bytes) (r :
   · unfold reader msgAttGmailMsgId gmailMsgId
     exact map_err _ _ _ (kwBind_err _ _ u mask r h)
 
-/-- every encoding of an answer to `a` begins with the name the builder sent (any case) -/
-theorem answer_keyword (a : Attribute) (v : AttributeValue) (e : Bytes) (ha : Answers a v) (he : EncAttr v e) :
+/-- every reply item answering `a` begins with the name the builder sent (in any case) and a space -/
+theorem answer_keyword (a : Attribute) (v : AttributeValue) (e : Bytes) (h : Reply a v e) :
     ∃ mask tail, e = spell (attrName a ++ b!" ") mask ++ tail := by
-  cases ha <;> cases he <;> exact ⟨_, _, rfl⟩
+  cases h <;> exact ⟨_, _, rfl⟩
 
-/-- every conformant reply item for a requested attribute (other than BODY) is read back exactly -/
-theorem item_readable_partial (a : Attribute) (v : AttributeValue) (e : Bytes) (_ha : Answers a v)
-    (he : EncAttr v e) (c : UInt8) (rest : Bytes) (hc : c = 32 ∨ c = 41) :
+/-- **every conformant reply item for every attribute the builder offers is read back exactly** -/
+theorem item_readable (a : Attribute) (v : AttributeValue) (e : Bytes) (h : Reply a v e)
+    (c : UInt8) (rest : Bytes) (hc : c = 32 ∨ c = 41) :
     msgAtt (e ++ c :: rest) = .ok v (c :: rest) :=
-  msgAtt_enc v e he (c :: rest) ⟨c, rest, rfl, by rcases hc with rfl | rfl <;> decide⟩
+  msgAtt_enc v e h.enc (c :: rest) ⟨c, rest, rfl, by rcases hc with rfl | rfl <;> decide⟩
 
-/-- for every attribute other than BODY a conformant answer exists in the relation, so the
-    previous theorem is not vacuous for any of them -/
-theorem answer_exists_partial (a : Attribute) (ha : a ≠ .body) : ∃ v e, Answers a v ∧ EncAttr v e := by
+/-- for every attribute a conformant answer exists, so the previous theorem is not vacuous for any -/
+theorem answer_exists (a : Attribute) : ∃ v e, Reply a v e := by
   have nilEnv : EncEnvelope ⟨none, none, none, none, none, none, none, none, none, none⟩ _ :=
     EncEnvelope.mk _ _ _ _ _ _ _ _ _ _ _ (.nil []) (.nil []) (.nil []) (.nil []) (.nil []) (.nil [])
       (.nil []) (.nil []) (.nil []) (.nil [])
+  have q0 : EncString [] _ := .quoted (by intro c hc; cases hc)
+  have flds : EncFields ⟨none, none, none, .sevenBit, 0⟩ _ :=
+    EncFields.mk _ _ _ _ _ _ (.nil []) (.nil []) (by intro s hs; cases hs) (.nil []) (by intro s hs; cases hs)
+      (.sevenBit []) (by decide) (.mk 0)
   cases a with
-  | body => exact absurd rfl ha
-  | envelope => exact ⟨_, _, .envelope _, .envelope [] _ _ nilEnv⟩
-  | flags => exact ⟨_, _, .flags [], .flags [] _ _ .nil⟩
-  | internalDate =>
-    exact ⟨_, _, .internalDate [], .internalDate [] [] _ (.quoted (by intro c hc; cases hc)) (by decide)⟩
-  | modSeq => exact ⟨_, _, .modSeq 0, .modSeq [] 0 _ (by decide) (.mk 0)⟩
-  | rfc822 => exact ⟨_, _, .rfc822 none, .rfc822 [] none _ (.nil [])⟩
-  | rfc822Size => exact ⟨_, _, .rfc822Size 0, .rfc822Size [] 0 _ (by decide) (.mk 0)⟩
-  | rfc822Text => exact ⟨_, _, .rfc822Text none, .rfc822Text [] none _ (.nil [])⟩
-  | uid => exact ⟨_, _, .uid 0, .uid [] 0 _ (by decide) (.mk 0)⟩
-  | gmailLabels => exact ⟨_, _, .gmailLabels [], .gmailLabels [] _ _ .nil⟩
-  | gmailMsgId => exact ⟨_, _, .gmailMsgId 0, .gmailMsgId [] 0 _ (by decide) (.mk 0)⟩
+  | body => exact ⟨_, _, .body [] _ _ (.text 32 [] [] _ _ _ 0 _ _ _ q0 (by decide) flds (by decide) (.mk 0) .l0)⟩
+  | envelope => exact ⟨_, _, .envelope [] _ _ nilEnv⟩
+  | flags => exact ⟨_, _, .flags [] _ _ .nil⟩
+  | internalDate => exact ⟨_, _, .internalDate [] [] _ q0 (by decide)⟩
+  | modSeq => exact ⟨_, _, .modSeq [] 0 _ (by decide) (.mk 0)⟩
+  | rfc822 => exact ⟨_, _, .rfc822 [] none _ (.nil [])⟩
+  | rfc822Size => exact ⟨_, _, .rfc822Size [] 0 _ (by decide) (.mk 0)⟩
+  | rfc822Text => exact ⟨_, _, .rfc822Text [] none _ (.nil [])⟩
+  | uid => exact ⟨_, _, .uid [] 0 _ (by decide) (.mk 0)⟩
+  | gmailLabels => exact ⟨_, _, .gmailLabels [] _ _ .nil⟩
+  | gmailMsgId => exact ⟨_, _, .gmailMsgId [] 0 _ (by decide) (.mk 0)⟩
 
 /-- element-wise relation between two lists of equal length (core has no `Pairwise₂`) -/
 inductive Pairwise₂ {α β : Type} (R : α → β → Prop) : List α → List β → Prop
@@ -114,35 +144,35 @@ inductive Pairwise₂ {α β : Type} (R : α → β → Prop) : List α → List
 
 /-- a complete reply - one conformant item per requested attribute, in the order requested - is
     parsed, and returns one value per item in that order -/
-theorem reply_readable_partial (n : Nat) (hn : n < 2 ^ 32) (z k : Nat) (mask : List Bool)
+theorem reply_readable (n : Nat) (hn : n < 2 ^ 32) (z k : Nat) (mask : List Bool)
     (req : Attribute) (reqs : List Attribute)
     (first : Bytes × AttributeValue) (others : List (Bytes × AttributeValue))
-    (hfirst : Answers req first.2 ∧ EncAttr first.2 first.1)
-    (hothers : Pairwise₂ (fun a x => Answers a x.2 ∧ EncAttr x.2 x.1) reqs others) (rest : Bytes) :
+    (hfirst : Reply req first.2 first.1)
+    (hothers : Pairwise₂ (fun a x => Reply a x.2 x.1) reqs others) (rest : Bytes) :
     ∃ vs, parseResponse (b!"* " ++ ((List.replicate z 48 ++ decDigits n) ++ (spell (b!" FETCH ") mask ++
             ([40] ++ (first.1 ++ (others.map fun x => [32] ++ x.1).flatten) ++ [41])) ++
             (List.replicate k 32 ++ b!"\r\n")) ++ rest) = .ok (.fetch n vs) rest ∧
-          Pairwise₂ Answers (req :: reqs) vs := by
+          Pairwise₂ (fun a v => ∃ e, Reply a v e) (req :: reqs) vs := by
   refine ⟨first.2 :: others.map (·.2), ?_, ?_⟩
   · have hall : ∀ x ∈ first :: others, EncAttr x.2 x.1 := by
       intro x hx
       simp only [List.mem_cons] at hx
       rcases hx with rfl | hx
-      · exact hfirst.2
+      · exact hfirst.enc
       · clear hfirst
         induction hothers with
         | nil => cases hx
         | cons h _ ih =>
           simp only [List.mem_cons] at hx
           rcases hx with rfl | hx
-          · exact h.2
+          · exact h.enc
           · exact ih hx
     exact parseResponse_enc _ _ (EncResponse.fetch _ _ k (EncFetch.mk n _ mask _ _ hn (.mk z) (.mk first others hall))) rest
-  · refine Pairwise₂.cons hfirst.1 ?_
+  · refine Pairwise₂.cons ⟨_, hfirst⟩ ?_
     clear hfirst
     induction hothers with
     | nil => exact Pairwise₂.nil
-    | cons h _ ih => exact Pairwise₂.cons h.1 ih
+    | cons h _ ih => exact Pairwise₂.cons ⟨_, h⟩ ih
 
 /-- RFC 3501 6.4.5: what a conformant server sends for each macro -/
 def macroItems : AttrMacro → List Attribute
@@ -150,10 +180,9 @@ def macroItems : AttrMacro → List Attribute
   | .fast => [.flags, .internalDate, .rfc822Size]
   | .full => [.flags, .internalDate, .rfc822Size, .envelope, .body]
 
-/-- FAST and ALL expand to attributes whose answers are all readable; FULL additionally asks for
-    BODY -/
-theorem macro_expansion_covered (m : AttrMacro) (hm : m ≠ .full) : ∀ a ∈ macroItems m, a ≠ Attribute.body := by
-  cases m <;> simp [macroItems] at * 
+/-- every macro expands to attributes of the builder's table, each of which has a readable answer -/
+theorem macro_expansion_covered (m : AttrMacro) : ∀ a ∈ macroItems m, ∃ v e, Reply a v e :=
+  fun a _ => answer_exists a
 
 /-! non-vacuity: a reply to `FETCH 1 ALL` -/
 set_option maxRecDepth 100000 in
